@@ -29,6 +29,8 @@ def is_pickle_guard(fn) -> bool:
     if not dumps or not t.handlers:
         return False
     for h in t.handlers:
+        if h.type is not None and chain(h.type) not in ("Exception", "BaseException"):
+            return False  # what pickling raises is open-ended (pickle.PicklingError, TypeError, AttributeError, ...): a narrower handler lets some of it through
         rets = [x for x in ast.walk(h) if isinstance(x, ast.Return)]
         if len(rets) != 1 or not (isinstance(rets[0].value, ast.Call) and chain(rets[0].value.func) in _BUILTIN_EXC):
             return False
